@@ -11,6 +11,13 @@ META = comp_engine.meta("C03")
 def run(ctx):
     comp_engine.run(ctx, "C03", **comp_engine.PARAMS.get("C03", {}))
     comp_engine.extra(ctx, "C03")
+    # batcher level (theorem C03_release_after_apply): a synchronous checkpoint returns normally only when its update
+    # is in an applied call - several producers, failing / slow-then-failing / applied-then-failing API calls
+    from harness import batcher_sim as B
+    from harness.props import C05
+    for i in range(ctx.scale(400, 8000)):
+        sc = B.gen_scenario(ctx.rng, with_fault=True)
+        C05.one(ctx, sc, ctx.rng.randrange(1 << 30), component="batcher.fault", prop="C03")
 
 
 def search(ctx):
@@ -18,4 +25,8 @@ def search(ctx):
 
 
 def replay(ctx, rec):
-    comp_engine.replay(ctx, rec, "C03")
+    if "scenario" in rec["case"] and "producers" in rec["case"]["scenario"]:
+        from harness.props import C05
+        C05.one(ctx, rec["case"]["scenario"], 0, schedule=rec["case"].get("decisions"), component="batcher.fault.replay", prop="C03")
+    else:
+        comp_engine.replay(ctx, rec, "C03")
